@@ -5,6 +5,9 @@ here = os.path.dirname(os.path.dirname(os.path.abspath(__file__)))
 props = [json.loads(l) for l in open(os.path.join(here, 'properties.jsonl'))]
 spec = json.load(open(os.path.join(here, 'specs', 'props.json')))
 meta = json.load(open(os.path.join(here, 'tools', 'manifest_meta.json')))
+import subprocess
+log = subprocess.run(['git', '-C', '/repo', 'log', '--format=%h %s'], capture_output=True, text=True).stdout.strip().split('\n')
+meta['hooks']['source_commits'] = [l.split()[0] for l in reversed(log) if l.split(' ', 1)[1].startswith('verif:')]
 checks, na = [], []
 for p in props:
     pid = p['id']
